@@ -7,6 +7,7 @@ import importlib
 from symx.harness import Harness
 from symx import core
 from symx.core import sym_and, sym_or, sym_not, implies, ite
+from symx.seq import SymByteArray
 from ref import rv32
 
 MODS = {"riscv": "ppci.arch.riscv.instructions", "riscv:rvc": "ppci.arch.riscv.rvc_instructions"}
@@ -249,7 +250,8 @@ class EncodeHarness(Harness):
                 assert len(rels) == 1, "one relocation expected for a label operand"
                 r = rels[0]
                 size = r.size()
-                buf = bytearray(data[r.offset:r.offset + size])
+                part = list(data[r.offset:r.offset + size])
+                buf = bytearray(part) if core.ENG is None else SymByteArray(part)
                 new = r.apply(i["P"] + i["off"], buf, i["P"])
                 data = list(data[:r.offset]) + list(new) + list(data[r.offset + size:])
                 for k, kd in enumerate(self.ks):
